@@ -22,10 +22,12 @@ func c02(r *core.Run) {
 	r.Explanation = "Static rules: (R1) expression-DAG equivalence of the two leaf encoders — the leaf the tree builder feeds the Merkle library and the leaf the on-chain verifier feeds it are the same term SHA256(dec(index) ‖ hex(chunk)) up to leaf naming, with the same tree hash constructor and salting flag; (R2) every random challenge draw is reached only behind pieces > 0, the bound derives from FileSize / chunk size with the chunk size coming from a parameter whose validator rejects values below 1, and the challenge is the constant 0 otherwise; (R3) removal and burning in the per-proof routine happen only on the miss branch. The window clause (one proof per window at any phase is always enough) is pure schedule arithmetic and is not decided."
 	r.Assumptions = []string{T4, T6, "soundness of go-merkletree"}
 	r.NotDecided = []string{"the proof-window clause: for every placement of one proof per window relative to reward blocks the prover is never dropped (schedule arithmetic; the code is the definition)"}
+	r.Rule("C02/R5", "block-height arithmetic is dimensionally consistent: absolute heights (Ctx.BlockHeight and fields assigned from it) are compared only with absolute heights, intervals/offsets/parameters only with each other (point - point = span, point ± span = point), followed through helper calls with the dimensions of the actual arguments")
 	r.Rule("C02/R1", "writer/reader leaf encodings agree: term(builder leaf) ≡ term(verifier leaf) up to leaf naming; same tree hash constructor; same salted flag")
 	r.Rule("C02/R2", "challenge bounded: each Int63n(n) on transaction paths is behind Cmp(n > 0); n ⊵ FileSize and the chunk size; the chunk size at every caller ⊵ Param(storage.ChunkSize) whose validator enforces >= 1")
 	r.Rule("C02/R4", "the file judged in the reward loop is decoded into a fresh variable per file (no captured decode target with repeated fields): otherwise an honest prover of an earlier file is judged against a later file's window and removed/burned")
 	r.Rule("C02/R3", "remove/burn only on the miss branch: in the per-proof routine removal is behind young=false and (proof not found or proven=false); burn behind proven=false and young=false")
+	heightDimensions(r, "C02/R5", moduleFuncs(p, "storage"), 8)
 	// ---- R1
 	var bLeaf, vLeaf ssa.Value
 	var bHash, vHash, bSalt, vSalt string
